@@ -713,6 +713,12 @@ def run_shard(item):
                 n += 1
                 if x == D.alt(8 * w, False) and w == 4:
                     rec.sample({"EntityIdTlv": recipe, "expected_octets": ref})
+        # the TLV carries whatever ID length the peers agreed on (0..255 octets to the TLV; entity IDs of 3, 5, 6, 7 octets are as
+        # legal on the wire as the four widths the byte-field classes offer): packed as given, decoded as received
+        for w in (0, 3, 5, 6, 7, 9, 16):
+            for x in ([0] if w == 0 else D.dedupe([0, 1, (1 << (8 * w)) - 1, D.alt(8 * w, False), int.from_bytes(bytes(range(0x11, 0x11 + w)), "big")])):
+                check_concrete(rec, "EntityIdTlv", {"id": hx(x.to_bytes(w, "big"))})
+                n += 1
         rec.count("entity_ids", n)
     elif kind == "fault":
         for cc in CONDITION_CODES:
